@@ -42,7 +42,7 @@ def seeds():
     res = {}
     p = V / "seeded" / "RESULTS.tsv"
     if p.exists():
-        for line in p.read_text().splitlines():
+        for line in p.read_text(errors="replace").splitlines():
             a = line.split("\t")
             res[a[0]] = a[1:]
     rows = ["| seed | change (file: what) | needs | when made: caught by | re-run against current HEAD |", "|----|----|----|----|----|"]
